@@ -40,21 +40,26 @@ type Node struct {
 	peers   map[int]*simnode.Peer // peers[j] represents remote node j as seen from this node
 	app     *recApp
 
-	alive       bool
-	incarn      int  // restarts so far
-	failed      bool // consensus routine reported CONSENSUS FAILURE
-	failMsg     string
-	killReq     bool // node asked to be killed (cmn.Kill)
-	killSeen    bool
-	frozen      bool          // durable image frozen mid-event: the node is a zombie until torn down
-	downFor     time.Duration // how long the node stays down after the pending crash
-	fveRejected string        // the FaultValidatorsEvidence check of this node rejected a block
-	outbox      []cs.ConsensusMessage
-	timer       *pendingTimer
-	timerGen    int
-	skewNum     int // timeouts are multiplied by skewNum/8
-	useWAL      bool
-	lastProg    time.Duration // last time the node committed
+	alive                            bool
+	incarn                           int  // restarts so far
+	failed                           bool // consensus routine reported CONSENSUS FAILURE
+	failMsg                          string
+	killReq                          bool // node asked to be killed (cmn.Kill)
+	killSeen                         bool
+	crashAtSign                      bool          // die at the next signing request (before it is served)
+	doubleTap                        bool          // after the crash at a signing request: crash again right after the restart
+	walGone                          bool          // the next restart finds no WAL
+	afterOwnProposal, sawOwnProposal bool          // variant of crashAtSign: the vote request that follows the own proposal
+	starting                         bool          // inside start(): what is signed now is signed by the WAL catch-up replay
+	frozen                           bool          // durable image frozen mid-event: the node is a zombie until torn down
+	downFor                          time.Duration // how long the node stays down after the pending crash
+	fveRejected                      string        // the FaultValidatorsEvidence check of this node rejected a block
+	outbox                           []cs.ConsensusMessage
+	timer                            *pendingTimer
+	timerGen                         int
+	skewNum                          int // timeouts are multiplied by skewNum/8
+	useWAL                           bool
+	lastProg                         time.Duration // last time the node committed
 }
 
 type pendingTimer struct {
@@ -166,7 +171,47 @@ type recPV struct {
 	n *Node
 }
 
+// atSign implements the "die at the next signing request" crash flavour.
+func (p *recPV) atSign(proposal bool) {
+	if p.n.crashAtSign && !p.n.frozen {
+		if p.n.afterOwnProposal {
+			// variant: the vote request that follows the node's own proposal. The
+			// proposal and its parts went through the internal queue and were
+			// written to the WAL synchronously, so what triggers this vote is
+			// durable although the vote is not signed yet: the restart's WAL
+			// catch-up signs it for the first time
+			if proposal {
+				p.n.sawOwnProposal = true
+				return
+			}
+			if !p.n.sawOwnProposal {
+				return
+			}
+			p.n.cl.c.Probe("crash-at-vote-request-after-own-proposal")
+		}
+		p.n.crashAtSign = false
+		p.n.freezeNow()
+	}
+}
+
+// SignVoteWithoutSave is part of the signing interface of the node: whatever
+// it releases counts like any other released signature.
+func (p *recPV) SignVoteWithoutSave(chainID string, vote *types.Vote) error {
+	p.atSign(false)
+	err := p.FilePV.SignVoteWithoutSave(chainID, vote)
+	if vote.Signature != nil && !p.n.frozen {
+		kind := "prevote"
+		if vote.Type == types.VoteTypePrecommit {
+			kind = "precommit"
+		}
+		p.n.cl.c.Probe("signed-without-save")
+		p.n.cl.orc.released(p.n, kind, vote.Height, vote.Round, vote.BlockID, vote)
+	}
+	return err
+}
+
 func (p *recPV) SignVote(chainID string, vote *types.Vote) error {
+	p.atSign(false)
 	var err error
 	if p.n.cl.cfg.PermissivePV {
 		// no signer-side guard: what the state machine asks for is what gets
@@ -190,6 +235,7 @@ func (p *recPV) SignVote(chainID string, vote *types.Vote) error {
 }
 
 func (p *recPV) SignProposal(chainID string, proposal *types.Proposal) error {
+	p.atSign(true)
 	err := p.FilePV.SignProposal(chainID, proposal)
 	if proposal.Signature != nil && !p.n.frozen {
 		p.n.cl.orc.releasedProposal(p.n, proposal)
@@ -321,7 +367,10 @@ func (n *Node) start() error {
 	if err := chain.EventBus.Start(); err != nil {
 		return err
 	}
-	if err := n.reactor.Start(); err != nil {
+	n.starting = true // the WAL catch-up replay runs inside the reactor's start
+	err = n.reactor.Start()
+	n.starting = false
+	if err != nil {
 		return fmt.Errorf("reactor start: %v", err)
 	}
 	return nil
